@@ -394,6 +394,9 @@ def c16(ctx):
                 continue
             if d_ in ('std::clone::Clone::clone', 'std::convert::Into::into', 'std::convert::From::from'):
                 continue
+            # a composition helper: a loop-free crate function whose value is a closure that merely captures what it was given
+            if c['t'].get('local') and cal in F.bodies and not ctx.cfg(F.bodies[cal]).loops() and c['res'] is not None and c['res'][0] == 'closure':
+                continue
             for a in c['args']:
                 hit = [p_ for p_ in own if any(x == p_ for x in subterms(a))]
                 if hit:
